@@ -148,3 +148,19 @@ from pyvc.api import REG as _REG
 _REG.contracts[(RENDER, 'ErrorRender.Quotation.__cause_range')].replay = '_q_cause_range'
 _REG.contracts[(RENDER, 'ErrorRender.Quotation.__build_line_mark')].replay = '_q_line_mark'
 TWINS = {'Token.SourceMap.make': gen_make, 'ErrorRender.Quotation.__cause_range': gen_range, 'ErrorRender.Quotation.__build_line_mark': gen_mark}
+
+
+def extra_checks(tier, seed, active_known):
+	"""Clause 'this holds equally after the tree was restored from the cache': spans of the restored tree equal the fresh ones
+	(bounded stand-in shared with C15; never counted as proved)."""
+	from pyvc.driver import Extra
+	from twins import lark_twin
+	n, distinct, fails = lark_twin.search(tier, seed)
+	x = Extra(name='spans survive the cache encoding (shared with C15)', kind='bounded', ok=not fails, cases=n, exhaustive=True,
+		bound='all lark trees with <= 4 (quick) / 5 (thorough) nodes over the stated alphabet + real parse trees', detail=f'{distinct} distinct views, {len(fails)} mismatches',
+		samples=[{'tree': "('tree','rule_a','pos',(('leaf',('tok','STR',(2,1,3,3))),))", 'verdict': 'source_map equal after restore'}])
+	x.distinct = distinct
+	if fails:
+		x.violation = {'what': f'restored span differs: {fails[0].get("fresh", "")[:200]} vs {fails[0].get("restored", "")[:200]}', 'function': 'rogw/tranp/implements/syntax/lark/entry.py:Serialization', 'inputs': fails[0], 'clause': 'span(restored) == span(fresh)'}
+		x.finding_key = 'lark-roundtrip-span'
+	return [x]
